@@ -44,6 +44,10 @@ bool decode_frame(const std::string &bytes, Frame &f) {
   return true;
 }
 
+// TTLs are logged saturated at 2^30: the trace specifications compute in 32-bit integers; a TTL of 2^30 s (34 years)
+// or more is "far future" for every rule they state
+static std::string ttl_str(unsigned int t) { return std::to_string(t >= (1u << 30) ? (1u << 30) : t); }
+
 static void marker_addr4(int m, struct in_addr *a) {
   unsigned char *b = (unsigned char *)a;
   b[0] = 192; b[1] = (unsigned char)((m >> 16) & 255); b[2] = (unsigned char)((m >> 8) & 255); b[3] = (unsigned char)(m & 255);
@@ -94,6 +98,7 @@ std::string build_reply(const Frame &f, const J &st, int pid, std::string &desc)
   ares_dns_record_create(&rec, (unsigned short)qid, flags, ARES_OPCODE_QUERY, rcode);
   ares_dns_record_query_add(rec, qname.c_str(), (ares_dns_rec_type_t)qtype, (ares_dns_class_t)qclass);
   unsigned int ttl = (unsigned int)st["ttl"].num(60);
+  if (st["hugettl"].num()) ttl = 3000000000u;   // beyond 2^31 (the generators cannot write such a literal)
   int          n   = (int)st["n"].num(1);
   std::string  ttls, recs;
   int          nans = 0;
@@ -105,7 +110,7 @@ std::string build_reply(const Frame &f, const J &st, int pid, std::string &desc)
                              (unsigned int)st["cnamettl"].num(ttl));
       owner = "c." + lower(qname);
       ares_dns_rr_set_str(rr, ARES_RR_CNAME_CNAME, owner.c_str());
-      ttls += std::to_string((unsigned int)st["cnamettl"].num(ttl));
+      ttls += ttl_str((unsigned int)st["cnamettl"].num(ttl));
       nans++;
     }
     for (int i = 0; i < n && kind != "cname_only"; i++) {
@@ -132,10 +137,10 @@ std::string build_reply(const Frame &f, const J &st, int pid, std::string &desc)
         ares_dns_rr_add_abin(rr, ARES_RR_TXT_DATA, (const unsigned char *)b, strlen(b));
       }
       if (!ttls.empty()) ttls += ",";
-      ttls += std::to_string(t_i);
+      ttls += ttl_str(t_i);
       if (qtype == ARES_REC_TYPE_A || qtype == ARES_REC_TYPE_AAAA || qtype == ARES_REC_TYPE_PTR) {
         if (!recs.empty()) recs += ",";
-        recs += "{\"m\":" + std::to_string(m) + ",\"ttl\":" + std::to_string(t_i) + ",\"f\":" + (qtype == ARES_REC_TYPE_AAAA ? "6" : (qtype == ARES_REC_TYPE_A ? "4" : "0")) + "}";
+        recs += "{\"m\":" + std::to_string(m) + ",\"ttl\":" + ttl_str(t_i) + ",\"f\":" + (qtype == ARES_REC_TYPE_AAAA ? "6" : (qtype == ARES_REC_TYPE_A ? "4" : "0")) + "}";
       }
       nans++;
     }
@@ -155,7 +160,7 @@ std::string build_reply(const Frame &f, const J &st, int pid, std::string &desc)
         ares_dns_rr_set_addr(rr, ARES_RR_A_ADDR, &a4);
       }
       if (!ttls.empty()) ttls += ",";
-      ttls += std::to_string(ttl);
+      ttls += ttl_str(ttl);
       nans++;
     }
   }
@@ -251,7 +256,7 @@ std::string describe_dnsrec(const ares_dns_record_t *rec) {
       m = -2;  // CNAME etc: no marker
     }
     if (!ttls.empty()) ttls += ",";
-    ttls += std::to_string(ares_dns_rr_get_ttl(rr));
+    ttls += ttl_str(ares_dns_rr_get_ttl(rr));
     if (m == -2) continue;
     if (!markers.empty()) markers += ",";
     markers += std::to_string(m);
